@@ -36,7 +36,8 @@ depth above an explicit bound in the type, and unbounded nesting depth.
 * negations with concrete witnesses for each way the round trip fails on the current code
   (`square_after_even_closers_differs`, `struct_then_comma_rejected`,
   `three_closers_rejected_where_gt_is_operator`, `custom_string_modifier_backslash_quote_breaks`,
-  `datetime64_zone_quote_breaks`), for values the parser never returns
+  `custom_quoted_word_modifier_quote_breaks`, `datetime64_zone_quote_breaks`), for values the parser
+  never returns
   (`handbuilt_modifier_splits`, `handbuilt_empty_modifier_vanishes`), and `fullStatement_false`.
 
 `Producible` is the decidable description of what the parser returns and prints token by token:
@@ -386,6 +387,23 @@ theorem custom_string_modifier_backslash_quote_breaks :
   refine ⟨?_, ?_, ?_, ?_⟩
   · have h : sqSpell (str "a\\'b") = str "'a\\'b'" := by decide
     rw [string_modifier_stored_as_spelling, h]
+  all_goals decide +kernel
+
+/-- RESIDUAL DEFECT 4' (a value the parser returns; older than the fix and untouched by it): a
+QUOTED-WORD modifier is stored by `Display for Word`, which keeps the quotes but does not double an
+embedded one (C06 `word_display_unescaped`): `foo("a""b")` has the word `a"b`, stored and printed as
+`"a"b"`; the lexer reads the identifier `a`, the word `b`, and a quote that never closes. -/
+theorem custom_quoted_word_modifier_quote_breaks :
+    parseDT generic 10 50 [.word (str "foo") none .noKw, LParen, .word (str "a\"b") (some 34) .noKw, RParen] =
+      .ok (.custom foo [str "\"a\"b\""], []) ∧
+    (SqlVerif.Tok.nextToken lexEnv (str "\"a\"b\")")).toOption =
+      some (some (.word ⟨str "a", some 34, none⟩, str "b\")")) ∧
+    (SqlVerif.Tok.nextToken lexEnv (str "\")")).toOption = none := by
+  refine ⟨?_, ?_, ?_⟩
+  · simp [LParen, RParen, parseDT, foo, parseDataType, parseHelper, headOf, parseLeaf, simpleOfKw, lenOfKw, intOfKw,
+      numOfKw, parseCustom, objName, parseIdent, bqSplit, generic, consumeSym, Tok.isSym, modLoop, suffixLoop, bind,
+      Except.bind, pure, Except.pure, SqlVerif.Pratt.wordDisplay]
+    decide
   all_goals decide +kernel
 
 /-- Values the parser never returns.  `DataType::Custom` Display still prints the modifiers
